@@ -116,8 +116,8 @@ PROPS = {
                        "rejects the transaction; every committed state, after every history, is stable under one more round of garbage collection and weak-reference "
                        "pruning (no unreferenced non-root row, no weak reference to a missing row, minimum sizes respected); only the named rejection classes arise. "
                        "Because the model has no reference index at all, its decisions depend on the stored rows only; that the implementation's incrementally tracked "
-                       "index equals the recomputed one is checked after every transaction (GetReferences of every row). 'No dangling strong reference after GC/pruning' "
-                       "is proved only for the candidate-state check - preservation through the rounds is not yet a theorem (correspondence + Go oracle cover it)."),
+                       "index equals the recomputed one is checked after every transaction (GetReferences of every row). No strong reference to a missing row exists "
+                       "after the processing, in every committed state and after every history (collection removes only unreferenced rows, pruning adds no reference)."),
         "level_note": ("Trusted: Coq kernel + vm_compute, std++; Go harness incl. its from-scratch recomputation of integrity and references. The order of steps follows "
                        "ovsdb-server and the code: strong check on the candidate state before collection; per round one collection level then weak pruning."),
         "rule": ("random schemas of 2..4 tables (root/non-root) with 1..3 reference columns each: strong/weak, optional, set (min 0/1), map key, map value, both; self "
